@@ -565,9 +565,15 @@ class JSONPathEnvironment:
         if operator == "<=":
             return self._lt(left, right) or self._eq(left, right)
         if operator == "in" and isinstance(right, (Mapping, Sequence)):
-            return left in right
+            try:
+                return left in right
+            except TypeError:
+                return False
         if operator == "contains" and isinstance(left, (Mapping, Sequence)):
-            return right in left
+            try:
+                return right in left
+            except TypeError:
+                return False
         if operator == "=~" and isinstance(right, re.Pattern) and isinstance(left, str):
             return bool(right.fullmatch(left))
         return False
